@@ -196,8 +196,19 @@ def build(item):
                 sym.check("read:iter[%d]" % i, it[i] == exps[i])
             if n > 0:
                 sym.check("read:index[-1]", o.l[-1] == exps[-1])
-        return dict(harness=h, theory="int", sig=sig, desc="list w=%d %s write=%s n=%d" % (
-            w, "signed" if signed else "unsigned", write, n))
+            if item.get("reads"):
+                # the other read paths see the same element values: sum, membership, the element models
+                tot = 0
+                for e_ in exps:
+                    tot = tot + e_
+                sym.check("read:sum", o.l.sum == tot)
+                for i in range(n):
+                    sym.check("read:contains[%d]" % i, exps[i] in o.l)
+                    mv = o.l.get_model().field_l[i].get_val()
+                    mv = mv.v if hasattr(mv, "v") else mv
+                    sym.check("read:model[%d]" % i, mv == exps[i])
+        return dict(harness=h, theory="bv" if item.get("reads") else "int", sig=sig, desc="list%s w=%d %s write=%s n=%d" % (
+            " (sum/in/model reads)" if item.get("reads") else "", w, "signed" if signed else "unsigned", write, n))
 
     if kind == "readback":
         # FieldScalarModel.post_randomize: Boolector assignment (w-bit binary string) -> attribute value
@@ -257,6 +268,15 @@ def enum_roundtrip(chk):
             with vsc.raw_mode():
                 fe = o.e
             got = [o.e, o.re, o.l[0], o.l[1], list(o.l)[0], fe.get_val()]
+
+            # constructor initial values (attribute of an object, free-standing field)
+            @vsc.randobj
+            class CI(object):
+                def __init__(self):
+                    self.e = vsc.enum_t(E, i=m)
+                    self.re = vsc.rand_enum_t(E, i=m)
+            oi = CI()
+            got += [oi.e, oi.re, vsc.enum_t(E, i=m).get_val(), vsc.rand_enum_t(E, i=m).get_val()]
             n += 1
             if any(g is not m for g in got):
                 chk.violation({"harness": "enum_roundtrip", "enum": E.__name__},
@@ -277,6 +297,8 @@ def items_for(t, sd):
                     items.append(dict(kind="scalar", w=w, signed=signed, write=write, rand=rand))
             items.append(dict(kind="readback", w=w, signed=signed))
             lw = ["append", "setitem", "assign", "init", "extend", "rand_list", "randsz_list", "clear_append"]
+            for write in ("append", "setitem", "init"):
+                items.append(dict(kind="list", w=w, signed=signed, write=write, n=2, reads=True))
             for write in lw:
                 items.append(dict(kind="list", w=w, signed=signed, write=write, n=2))
             if w in (1, 8, 64):
